@@ -89,6 +89,20 @@ CLAIMS["C19"] = dict(
          "position arithmetic of error_location and LR(1)-exact acceptability of merged reduce look-aheads are outside.",
     technique="LALR table scan x partially evaluated suggestion filter x first-match lexer simulation; dominance of re-parse")
 
+CLAIMS["C20"] = dict(
+    level="other", engine="pyflow",
+    text="Isolation decided by the standard static argument - a result can depend on history or another thread only through "
+         "state that outlives the call: every function of mindsdb_sql and sly (1000+) is scanned for writes to module globals, "
+         "class attributes (incl. class-level mutables reached via self), default-argument objects and memoisation decorators; "
+         "class-construction code is separated by call-graph reachability; each remaining write needs a re-derived "
+         "monotone/idempotent discharge. parse_sql must get lexer and parser from constructor calls of the same invocation; no "
+         "stateful object at module/class level; no store into caller-supplied catalog objects in the planner; every "
+         "set iteration/indexing/unpacking is classified by its consumers and the hash-ordered raw_query productions are "
+         "discharged on the LALR tables (no message depends on their order). Interleavings themselves are not explored.",
+    note="Assumes objects created inside a call are private to it and that SQLAlchemy/CPython internals are thread-safe for "
+         "per-instance use; call-graph is name-based (over-approximate callers).",
+    technique="who-may-write effect scan over shared state + constructor-provenance + set-order consumer classification")
+
 NA_PENDING = "check under construction in this session; not claimed until its rule module is committed"
 
 
